@@ -183,8 +183,10 @@ def dispatchX : List String → Option (Obs × Option Obs)
     some (obOf (Cpp.scan d xDir o), some (obOf (findSequencesOnDisk d xDir o)))
   | "x.find" :: st :: pat :: ents :: rest =>
     let xDir := xDirOf rest
-    let st := styleOf st
-    let pat := xDir ++ '/' :: unhex pat
+    -- style "1c" / "4c": the pattern has no directory part and is looked up in the working directory
+    let cwdMode := st.length > 1
+    let st : PadStyle := if st.startsWith "1" then .hash1 else .hash4
+    let pat := if cwdMode then unhex pat else xDir ++ '/' :: unhex pat
     let entries := parseEntries ents
     let names := entries.map (·.name)
     let d : DirSpec := some entries
